@@ -142,6 +142,19 @@ def run(ctx):
                 dmeta.append((txt, shp, enc, buf, sched))
     ic, mc = ctx.correspond("text_de_calls_model", dcalls, nontrivial=lambda c, i: i.endswith("ok"))
     bcalls = len(ic) - len(dcalls)
+    # fault-free values of the directed documents: short reads of any size never change the result (oracle), model = code
+    dclean = [c.replace("c20.tde.calls", "c20.tde", 1) for c in dcalls]
+    icl, _ = ctx.correspond("text_de_directed_clean", dclean, nontrivial=lambda c, i: not i.startswith("ERR"))
+    bcl = len(icl) - len(dclean)
+    cleanv = {}
+    for j, m in enumerate(dmeta):
+        o = icl[bcl + j]
+        cleanv[m] = o
+        ref = cleanv.setdefault((m[0], m[1], m[2]), o)
+        if o in ("PANIC", "ABORT", "HANG"):
+            fail("fault-panic", "fault-free run: %s" % o, [dclean[j]], [o], ref)
+        elif o != ref:
+            fail("short-read-changes-value", "buffer %d, schedule %s gives %s; 1-byte reads through a 16-byte buffer give %s" % (m[3], m[4], o[:120], ref[:120]), [dclean[j]], [o], ref)
     dfault = []
     for j, (txt, shp, enc, buf, sched) in enumerate(dmeta):
         o = ic[bcalls + j]
@@ -162,6 +175,20 @@ def run(ctx):
     # Ok has issued at most k read calls
     for j, c in enumerate(dfault):
         o = idf[bdf + j]
+        if c.startswith("c20.tde\t"):
+            # a run that returns Ok returns the fault-free value; any other outcome is the I/O error or the fault-free error
+            a = c.split("\t")
+            _, bufs, schedk = a[1].split(":")
+            ref = cleanv.get((bytes.fromhex(a[4]) if a[4] != "-" else b"", a[3], a[2]))
+            if ref is None:
+                continue
+            if o in ("PANIC", "ABORT", "HANG"):
+                fail("fault-panic", "directed document, %s: %s" % (a[1], o), [c], [o], "ERR:io")
+            elif not o.startswith("ERR"):
+                if o != ref:
+                    fail("fault-wrong-value", "directed document, %s: the fault is swallowed: the call returns %s, the fault-free run returns %s" % (a[1], o[:150], ref[:150]), [c], [o], ref)
+            elif o != "ERR:io" and o != ref:
+                fail("fault-other-error", "directed document, %s: surfaces as %s instead of an I/O error (fault-free: %s)" % (a[1], o, ref[:100]), [c], [o], "ERR:io")
         if c.startswith("c20.tde.calls") and o.endswith("ok"):
             k = int(c.split("\t")[1].split("@")[1][:-1])
             ncall = int(o.split()[0].split("=")[1])
